@@ -429,6 +429,130 @@ fn cmd_directed(args: &[String]) {
     println!("JSON {}", json!({"runs": runs, "found": found, "samples": samples}));
 }
 
+/// single-threaded variant of C07: next() calls interleaved with inserts that complete whole resizes
+fn cmd_travseq(args: &[String]) {
+    // travseq <seed> <n> <out.v>
+    use crate::dump::{bin_coq, canon, CBin};
+    use flurry::HashMap;
+    let seed: u64 = args[0].parse().unwrap();
+    let n: u64 = args[1].parse().unwrap();
+    silence_panics();
+    let mut rng = types::SplitMix64(seed ^ 0x5E9);
+    let mut coq = String::from(
+        "From Flurry Require Import Model.Trav Model.Check.\nImport ListNotations.\n\
+         Fixpoint drain_n (calls fuel : nat) (f : forest) (it : titer) : list node * titer :=\n\
+         \x20 match calls with O => ([], it) | S c => match advance fuel f it with\n\
+         \x20   | (Some x, it') => let '(l, it'') := drain_n c fuel f it' in (x :: l, it'')\n\
+         \x20   | (None, it') => ([], it') end end.\n\
+         Definition across (f0 : forest) (j : nat) (f1 : forest) : list node :=\n\
+         \x20 let '(l1, it) := drain_n j (trav_fuel f0) f0 (new_iter f0) in\n\
+         \x20 l1 ++ drain (S (total_nodes f1) + length (i_rest it)) (trav_fuel f1) f1 it.\n\
+         Definition keys_lt (m : N) (l : list N) : list N := filter (fun k => N.ltb k m) l.\n",
+    );
+    let mut cases = 0u64;
+    let mut found = 0u64;
+    let mut gens = std::collections::BTreeMap::<u32, u64>::new();
+    let mut samples = Vec::new();
+    for _ in 0..n {
+        let hasher = [types::H_IDENTITY, types::H_MIX, types::H_IDENTITY, types::H_HIGH, types::H_SAMEBIN, types::H_HIGHONES][rng.below(6) as usize];
+        let cap = [8u64, 8, 16, 32, 1][rng.below(5) as usize];
+        let m = 3 + rng.below(9) as u32;
+        let j = rng.below(m as u64 + 1) as usize;
+        let extra = [8u32, 20, 40, 100, 200][rng.below(5) as usize];
+        let (d0, d1, yielded) = with_hasher!(hasher, S, {
+            let map: HashMap<types::Key, types::Val, S> = HashMap::with_capacity_and_hasher(cap as usize, S::default());
+            let g = map.guard();
+            for k in 0..m {
+                map.insert(types::Key::new(k, 0), types::Val::new(1000 + k as i64), &g);
+            }
+            let d0 = canon(&map.verif_dump(&g));
+            let mut it = map.iter(&g);
+            let mut yielded: Vec<(u32, i64)> = Vec::new();
+            for _ in 0..j {
+                if let Some((k, v)) = it.next() {
+                    yielded.push((k.id, v.payload));
+                }
+            }
+            for k in m..m + extra {
+                map.insert(types::Key::new(k, 0), types::Val::new(1000 + k as i64), &g);
+            }
+            let d1 = canon(&map.verif_dump(&g));
+            let mut budget = 100_000;
+            while let Some((k, v)) = it.next() {
+                yielded.push((k.id, v.payload));
+                budget -= 1;
+                if budget == 0 {
+                    break;
+                }
+            }
+            (d0, d1, yielded)
+        });
+        cases += 1;
+        let (l0, l1) = (d0.len(), d1.len());
+        let g = if l0 == 0 { 0 } else { (l1 / l0).trailing_zeros() };
+        *gens.entry(g).or_insert(0) += 1;
+        // model-free: every original key exactly once, nothing twice, values right
+        let mut cnt = std::collections::HashMap::<u32, u32>::new();
+        let mut bad = None;
+        for (k, v) in &yielded {
+            *cnt.entry(*k).or_insert(0) += 1;
+            if *v != 1000 + *k as i64 {
+                bad = Some(format!("yielded ({}, {}) which was never in the map", k, v));
+            }
+        }
+        for k in 0..m {
+            let c = cnt.get(&k).cloned().unwrap_or(0);
+            if c != 1 {
+                bad = Some(format!("key {} was present and untouched during the iteration but was yielded {} times", k, c));
+            }
+        }
+        for (k, c) in &cnt {
+            if *c > 1 {
+                bad = Some(format!("key {} was yielded {} times", k, c));
+            }
+        }
+        let desc = format!(
+            "hasher={} with_capacity({}) initial keys 0..{}, {} next() calls, then insert keys {}..{} ({} -> {} bins), then drain",
+            types::HASHER_NAMES[hasher as usize], cap, m, j, m, m + extra, l0, l1
+        );
+        if let Some(b) = bad {
+            found += 1;
+            println!("FOUND C07 {} || {}", b, desc);
+        }
+        if samples.len() < 3 && g >= 2 {
+            samples.push(desc.clone());
+        }
+        // Coq: the model iterates the same two-phase structure; the original keys must come out in the same order
+        let tab = |t: &crate::dump::CTable| {
+            format!(
+                "expand {} [{}]",
+                t.bins.len(),
+                t.bins.iter().enumerate().filter(|(_, b)| !matches!(b, CBin::Empty)).map(|(i, b)| format!("B_ {} ({})", i, bin_coq(b))).collect::<Vec<_>>().join(";")
+            )
+        };
+        if let (Some(t0), Some(t1)) = (&d0.table, &d1.table) {
+            let mut f1 = Vec::new();
+            let mut len = l0;
+            while len < l1 {
+                f1.push(format!("repeat BMoved {}", len));
+                len *= 2;
+            }
+            f1.push(tab(t1));
+            coq.push_str(&format!(
+                "Eval vm_compute in (list_eqb N.eqb (keys_lt {} (map nk (across [{}] {} [{}]))) (keys_lt {} [{}])).\n",
+                m,
+                tab(t0),
+                j,
+                f1.join("; "),
+                m,
+                yielded.iter().map(|(k, _)| format!("{}%N", k)).collect::<Vec<_>>().join(";")
+            ));
+        }
+    }
+    std::fs::write(&args[2], coq).expect("write");
+    println!("JSON {}", json!({"cases": cases, "found": found, "generations_crossed": gens, "samples": samples}));
+}
+
 fn cmd_trav(args: &[String]) {
     // trav <seed> <max_k> <out.v>: iterate a table whose resize is suspended after k steps and
     // print (forest, yielded sequence) pairs for the Coq traverser model
@@ -694,6 +818,7 @@ fn main() {
         "seq" => cmd_seq(&args[2..]),
         "c12" => cmd_c12(&args[2..]),
         "trav" => cmd_trav(&args[2..]),
+        "travseq" => cmd_travseq(&args[2..]),
         "directed" => cmd_directed(&args[2..]),
         "atomics" => cmd_atomics(&args[2..]),
         "panic" => cmd_panic(&args[2..]),
